@@ -72,49 +72,8 @@ def classify(case):
     return n >= 2, labels
 
 
-def run_case(case):
-    spec = common.spec_from(case)
-    if case["shuffle_summary"] is not None:
-        names = product.file_names(spec["scene_id"], spec["product_id"], spec["images"])
-        entries = product.default_summary_entries(spec, names)
-        random.Random(case["shuffle_summary"]).shuffle(entries)
-        spec["summary_entries"] = entries
-    files, info = product.build_product(spec)
+def judge_flat(flat, spec, info):
     out = []
-    via_cache = case.get("via_cache", False)
-    with harness.Materialised(files, "local" if via_cache else "memory") as prod:
-        try:
-            if via_cache:
-                _, err = harness.guard(harness.open_tree, prod.url, create_cache=True, use_cache=False, records_per_chunk=1024)
-                if err is not None:
-                    return [harness.disc("exception", "open_alos2(create_cache=True)", "a tree", harness.exc_text(err))]
-                if case.get("cache_layout") is not None:
-                    rng = random.Random(case["cache_layout"])
-                    missing = [name for name in info["names"]["sar_imagery"] if not c07.user_index_path(prod.url, name).is_file()]
-                    if missing:
-                        return [harness.disc("cache-not-written", missing[0] + ".index", "one index file per image in the user cache dir after create_cache=True", "missing")]
-                    for name in info["names"]["sar_imagery"]:
-                        where = rng.choice(["user", "adjacent", "none"])
-                        p = c07.user_index_path(prod.url, name)
-                        if where == "adjacent":
-                            (prod.dir / f"{name}.index").write_text(p.read_text())
-                        if where != "user":
-                            p.unlink()
-                tree, err = harness.guard(harness.open_tree, prod.url, records_per_chunk=case["rpc"])
-            else:
-                tree, err = harness.guard(harness.open_tree, prod.url, use_cache=False, records_per_chunk=case["rpc"])
-            if err is not None:
-                return [harness.disc("exception", "open_alos2", "a tree", harness.exc_text(err))]
-            flat, err = harness.guard(harness.flatten, tree)
-            if err is not None:
-                return [harness.disc("exception", "flatten", "loadable tree", harness.exc_text(err))]
-        finally:
-            if via_cache:
-                for name in info["names"]["sar_imagery"]:
-                    p = c07.user_index_path(prod.url, name)
-                    p.unlink(missing_ok=True)
-                    if p.parent.exists() and not any(p.parent.iterdir()):
-                        p.parent.rmdir()
     if flat.get("//") != ["summary", "metadata", "imagery"] and sorted(flat.get("//", [])) != ["imagery", "metadata", "summary"]:
         out.append(harness.disc("root-children", "/", ["summary", "metadata", "imagery"], flat.get("//")))
     want_names = common.group_names(spec)
@@ -147,6 +106,62 @@ def run_case(case):
     for key in flat:
         if key.endswith("@coordinates"):
             out.append(harness.disc("bookkeeping-attribute-left", key, "removed", flat[key]))
+    return out
+
+
+def run_case(case):
+    spec = common.spec_from(case)
+    if case["shuffle_summary"] is not None:
+        names = product.file_names(spec["scene_id"], spec["product_id"], spec["images"])
+        entries = product.default_summary_entries(spec, names)
+        random.Random(case["shuffle_summary"]).shuffle(entries)
+        spec["summary_entries"] = entries
+    files, info = product.build_product(spec)
+    out = []
+    via_cache = case.get("via_cache", False)
+    creating_flat = None
+    with harness.Materialised(files, "local" if via_cache else "memory") as prod:
+        try:
+            if via_cache:
+                creating, err = harness.guard(harness.open_tree, prod.url, create_cache=True, use_cache=False, records_per_chunk=1024)
+                if err is not None:
+                    return [harness.disc("exception", "open_alos2(create_cache=True)", "a tree", harness.exc_text(err))]
+                creating_flat, err = harness.guard(harness.flatten, creating)
+                if err is not None:
+                    return [harness.disc("exception", "flatten (cache-creating open)", "loadable tree", harness.exc_text(err))]
+                if case.get("cache_layout") is not None:
+                    rng = random.Random(case["cache_layout"])
+                    missing = [name for name in info["names"]["sar_imagery"] if not c07.user_index_path(prod.url, name).is_file()]
+                    if missing:
+                        return [harness.disc("cache-not-written", missing[0] + ".index", "one index file per image in the user cache dir after create_cache=True", "missing")]
+                    for name in info["names"]["sar_imagery"]:
+                        where = rng.choice(["user", "adjacent", "none"])
+                        p = c07.user_index_path(prod.url, name)
+                        if where == "adjacent":
+                            (prod.dir / f"{name}.index").write_text(p.read_text())
+                        if where != "user":
+                            p.unlink()
+                tree, err = harness.guard(harness.open_tree, prod.url, records_per_chunk=case["rpc"])
+            else:
+                tree, err = harness.guard(harness.open_tree, prod.url, use_cache=False, records_per_chunk=case["rpc"])
+            if err is not None:
+                return [harness.disc("exception", "open_alos2", "a tree", harness.exc_text(err))]
+            flat, err = harness.guard(harness.flatten, tree)
+            if err is not None:
+                return [harness.disc("exception", "flatten", "loadable tree", harness.exc_text(err))]
+        finally:
+            if via_cache:
+                for name in info["names"]["sar_imagery"]:
+                    p = c07.user_index_path(prod.url, name)
+                    p.unlink(missing_ok=True)
+                    if p.parent.exists() and not any(p.parent.iterdir()):
+                        p.parent.rmdir()
+    out.extend(judge_flat(flat, spec, info))
+    if creating_flat is not None:
+        # the tree returned by the open that wrote the caches is held to the same model
+        for d in judge_flat(creating_flat, spec, info):
+            d.setdefault("context", {})["tree"] = "returned by the cache-creating open"
+            out.append(d)
     return out
 
 
